@@ -16,15 +16,24 @@ import kani
 VERIF = kani.VERIF
 
 
-def _run(cmd, cwd, env, log, timeout):
+def _run(cmd, cwd, env, log, timeout, mem_gb=12):
+    """run under a memory cap and a wall-clock cap; the whole process group is killed on expiry
+    (a playback CBMC was seen at 29 GB after 12 min without this)"""
+    import signal
+    shell = "ulimit -v %d; exec %s" % (int(mem_gb * 1024 * 1024), " ".join(subprocess.list2cmdline([c]) for c in cmd))
     with open(log, "a") as f:
         f.write("\n# " + " ".join(cmd) + "\n")
         f.flush()
+        p = subprocess.Popen(["bash", "-c", shell], cwd=cwd, env=env, stdout=f, stderr=subprocess.STDOUT, start_new_session=True)
         try:
-            p = subprocess.run(cmd, cwd=cwd, env=env, stdout=f, stderr=subprocess.STDOUT, timeout=timeout)
-            return p.returncode
+            return p.wait(timeout=timeout)
         except subprocess.TimeoutExpired:
-            f.write("\n# TIMEOUT\n")
+            try:
+                os.killpg(p.pid, signal.SIGKILL)
+            except ProcessLookupError:
+                pass
+            p.wait()
+            f.write("\n# TIMEOUT after %ds\n" % timeout)
             return 124
 
 
@@ -120,7 +129,7 @@ fn %s() {
             env3["CARGO_TARGET_DIR"] = os.path.join(work, "target-native-" + mode)
             cmd = ["cargo", "kani", "playback", "-Z", "concrete-playback"] + kani.CRATES[crate]["args"] + ["--", test_name, "--nocapture"]
             mark = os.path.getsize(log) if os.path.exists(log) else 0
-            _run(cmd, cwd, env3, log, 1800)
+            _run(cmd, cwd, env3, log, 1800, mem_gb=24)
             with open(log, errors="replace") as lf:
                 lf.seek(mark)
                 tail = lf.read()
@@ -184,7 +193,7 @@ def kani_playback(pid, h, r):
                                                                  "-Z", "concrete-playback", "--concrete-playback=print"]
         if h.get("stubs"):
             cmd += ["-Z", "stubbing"]
-        _run(cmd, cwd, env, log, h["budget_s"] * 3)
+        _run(cmd, cwd, env, log, min(h["budget_s"] * 3, max(600, int(8 * (r.get("verify_s") or 60)))), mem_gb=h.get("mem_gb", 12))
         out = open(log, errors="replace").read()
         # Kani prints one test per failed check AND per satisfied cover; keep the failed checks only
         tests = []
@@ -216,7 +225,7 @@ def kani_playback(pid, h, r):
             for test_name, _, _ in tests:
                 cmd = ["cargo", "kani", "playback", "-Z", "concrete-playback"] + kani.CRATES[crate]["args"] + ["--", test_name]
                 mark = os.path.getsize(log)
-                rc = _run(cmd, cwd, env3, log, 1800)
+                rc = _run(cmd, cwd, env3, log, 1800, mem_gb=24)
                 with open(log, errors="replace") as lf:
                     lf.seek(mark)
                     tail = lf.read()
